@@ -1008,6 +1008,10 @@ class FortranBackend(BaseBackend):
 
         substituted = expr.xreplace(substitutions) if substitutions else expr
         substituted = substituted.xreplace({sp.pi: sp.Symbol('pi')})
+        # the derivative rules of abs / maxi / mini introduce the (undefined) one-argument function `sign`; Fortran's intrinsic
+        # SIGN takes two arguments, sympy's own sign prints as the correct Fortran expression
+        substituted = substituted.replace(lambda e: isinstance(e, sp.Function) and e.func.__name__ == 'sign' and len(e.args) == 1
+                                          and not isinstance(e, sp.sign), lambda e: sp.sign(e.args[0]))
         # ``human=False`` returns ``(constants, not_supported, code)`` and
         # therefore skips the leading ``parameter (...)`` declarations.
         _consts, _not_supported, text = fcode(
